@@ -4,9 +4,16 @@ K: seeded histories of CreateInstance / ModifyInstance / DeleteInstance / GetIns
    EnumerateInstanceNames run (a) through the real FakedWBEMConnection, with client-side mutation of every object
    passed in or handed out after each call, and (b) through the Lean model Model/Store.lean (native driver);
    outputs, status codes and the final contents of the repository are diffed.
+   Since the extension round the histories are histories of public CALLS (arguments of wrong Python types, namespaces
+   with slashes / through the object, CIMClassName, PropertyList forms, retrieval options, property attributes): the
+   model side is Model/StoreClient.lean `runCalls`.  Two further comparisons: the per-call object-sharing counts from
+   real id()s against Model/StoreAlias.lean, and the subclass lists of random class stores against
+   Model/StoreSubclass.lean (`subclass_walk`).
 Oracle: an independent reference map (this file, class RefMap) from (namespace, creation class, keybindings) –
    names case-folded, keybindings as a set – to property values with the documented status-code table, evaluated
-   against the REAL outputs only.
+   against the REAL outputs only; `call_to_op` re-states the argument handling (a bad argument must be refused with
+   TypeError / ValueError and change nothing); an identity walk demands that no mutable object is reachable from both
+   the repository and the client (`shared_object`).
 """
 import copy
 import json
@@ -1695,7 +1702,10 @@ def run(run):
         'names are ASCII: str.lower()/casefold() on non-ASCII CIM names is outside the model (values may be any text)',
         'Python dict lookup of CIMInstanceName keys = lookup by the normal form of the path (hash consistent with __eq__: C05)',
         'class resolution (inherited properties, Key/Association qualifier propagation) is taken from the real repository (C12)',
-        'copy.deepcopy copies (isolation is checked on the real code by mutation, not proved)']
+        'copy.deepcopy returns an object sharing no mutable part with the original ("all nodes fresh" in Model/StoreAlias.lean); '
+        'the alias model (isolation theorem) is tied to the code by per-call sharing counts from real id()s and the identity walk',
+        'the fuel-bounded downward subclass walk of Model/StoreSubclass.lean stands for the unbounded recursion of '
+        '_get_subclass_names (equal on acyclic class stores; compared as exact lists on every run)']
     FAULT_STATS.clear()
     items = make_cases(rng, n, run.thorough)
     for k_, v_ in sorted(FAULT_STATS.items()):
